@@ -58,6 +58,7 @@ def r01_1(ctx, rep, roles, snd):
     # rows of the emission phase that reach the end of a member's key-value loop
     n_set = 0
     flags = set()
+    empties = set()
     for row in snd.emit_rows:
         sm = [e for e in row.calls() if e[1] == set_max]
         for e in sm:
@@ -68,6 +69,16 @@ def r01_1(ctx, rep, roles, snd):
             for c in row.cond:
                 if c[0] == "truth" and c[1][0] == "loopvar" and c[2] is False and c[1][2] == sym.FALSE:
                     guard = c[1]
+            if guard is None:
+                # the other way to say "no key-value was added": the member's key-value iterator was empty before the loop
+                # (`let mut it = stale_kvs.peekable(); let nothing = it.peek().is_none();`)
+                for c in row.cond:
+                    if c[0] == "variant" and c[3] and c[2] == "None" and c[1][0] == "call" and sym.strip_all_generics(c[1][1]).split("::")[-1] == "peek":
+                        guard = ("peek", c[1])
+                        empties.add(c[1][1])
+            if guard is not None and guard[0] == "peek":
+                rep.obligation(True, "", "", sample="try_set_max_version guarded by `key-value iterator is empty` (peek() is None)")
+                continue
             rep.obligation(guard is not None, "C01/R01.1/set-max-guard",
                            "try_set_max_version is not guarded by 'no key-value was added' (a flag that starts false)", where(snd.fn, e[3][1]),
                            sample="try_set_max_version guarded by !added (added starts false)")
@@ -109,7 +120,16 @@ def r01_1(ctx, rep, roles, snd):
                 rep.obligation(ok and bool(adds) and succ, "C01/R01.1/flag-discipline",
                                "the 'added' flag is set to %s without a successful try_add_kv" % sym.fmt(e[3]), where(snd.fn, e[4][1] if e[4] else None),
                                sample="added := true only after try_add_kv returned true")
-    rep.floor("flag-writes", n_w, 1)
+    # emptiness-guarded form: every path on which the peeked iterator is empty and the member is left must call try_set_max_version
+    for row in snd.emit_rows:
+        emp = [c for c in row.cond if c[0] == "variant" and c[3] and c[2] == "None" and c[1][0] == "call" and c[1][1] in empties]
+        # (peek() == None and a later next() == Some on the same pass is not a path of the program)
+        entered = [c for c in row.cond if c[0] == "variant" and c[3] and c[2] == "Some" and c[1][0] == "call" and "Peekable" in c[1][1] and c[1][1].endswith("::next")]
+        if emp and not entered and row.exit in ("backedge", "return"):
+            rep.obligation(any(e[1] == set_max for e in row.calls()), "C01/R01.1/set-max-missing", "a member with no key-value to add is left without SetMaxVersion",
+                           where(snd.fn), sample="empty key-value iterator => try_set_max_version called")
+    if flags or not empties:
+        rep.floor("flag-writes", n_w, 1)
     # wire form
     go = [f for f in fx.fns.values() if f.get("impl_self") == "delta::Delta" and not f.get("impl_trait")
           and f.get("inputs") == ["&delta::Delta"] and f["kind"] == "method"]
